@@ -18,6 +18,7 @@ TREE = {
     "annassign-parenthesised-name-simple": ("`(x): int` reports simple=1, the reference reports 0 for a parenthesised name", "(x): int = 1"),
     "identifier-not-nfkc-normalised": ("identifiers are not NFKC-normalised (`µ` stays U+00B5, the reference stores U+03BC)", "µ = 1"),
     "softkw-match-case-name-at-line-start-with-colon": ("a logical line that starts with `match`/`case` used as an ordinary name and contains a colon is rejected (soft-keyword heuristic)", "match[0]: int = 1"),
+    "continuation-before-final-crlf-at-end-of-input-rejected": ("a text that ends with a backslash followed by CRLF (nothing after it) is rejected with Eof; the reference accepts exactly this ending (it rejects backslash+LF and backslash+CR at end of input)", "x = 1\\\r\n"),
     "softkw-type-alias-not-at-logical-line-start": ("a `type X = ...` statement after `;` or after a one-line compound header is rejected", "if x: type X = int"),
     "subscript-starred-index-operand-above-bitwise-or-rejected": ("a starred index whose operand is a boolean/comparison/conditional/lambda expression (`x[*a and b]`) is rejected; the reference accepts any expression there", "x[*a and b]"),
     "fstring-field-triple-quoted-string-rejected": ("a replacement field holding a triple-quoted string that contains the other quote character is rejected", "f\"{'''eric's'''}\""),
@@ -36,7 +37,7 @@ known("C07", "fstring-field-bare-tuple-range-includes-braces", "an unparenthesis
 for k_ in ("fstring-crlf-shifts-inner-ranges", "genexp-sole-argument-excludes-call-parens", "namedexpr-ends-before-closing-parens-of-value", "fstring-concat-piece-own-token-range"):
     known("C07", k_, "(see C02) " + next(f["description"] for f in []) if False else "see the C02 finding of the same name; inside replacement fields it also breaks the own-text rule of C07", "")
 
-for k_ in ("match-subject-trailing-comma-not-tuple", "softkw-match-case-name-at-line-start-with-colon", "subscript-starred-index-operand-above-bitwise-or-rejected", "fstring-field-triple-quoted-string-rejected"):
+for k_ in ("continuation-before-final-crlf-at-end-of-input-rejected", "match-subject-trailing-comma-not-tuple", "softkw-match-case-name-at-line-start-with-colon", "subscript-starred-index-operand-above-bitwise-or-rejected", "fstring-field-triple-quoted-string-rejected"):
     known("C08", k_, "layout-sensitive consequence of the C01 finding of the same name: " + TREE[k_][0], TREE[k_][1])
 
 # ---------------------------------------------------------------- C02
